@@ -27,11 +27,11 @@ type sentinels struct {
 func collectSentinels(prog *ssa.Program, module string) *sentinels {
 	s := &sentinels{wraps: map[string]map[string]bool{}, mutated: map[string]bool{}}
 	direct := map[string][]string{}
-	for _, pkg := range prog.AllPackages() {
+	for _, pkg := range sortedPkgs(prog) {
 		if pkg.Pkg == nil || !isModulePkg(pkg.Pkg.Path(), module) {
 			continue
 		}
-		for _, m := range pkg.Members {
+		for _, m := range sortedMembers(pkg) {
 			g, ok := m.(*ssa.Global)
 			if !ok {
 				continue
@@ -50,11 +50,11 @@ func collectSentinels(prog *ssa.Program, module string) *sentinels {
 		isSent[g] = true
 	}
 	// initialisers: *G = errors.New(..) | fmt.Errorf("%w..", *H, ...)
-	for _, pkg := range prog.AllPackages() {
+	for _, pkg := range sortedPkgs(prog) {
 		if pkg.Pkg == nil || !isModulePkg(pkg.Pkg.Path(), module) {
 			continue
 		}
-		for _, m := range pkg.Members {
+		for _, m := range sortedMembers(pkg) {
 			fn, ok := m.(*ssa.Function)
 			if !ok {
 				continue
@@ -411,6 +411,16 @@ func (x *X) external(fr *Frame, st *State, fn *ssa.Function, args []SV, cc *ssa.
 		st.mem[k] = x.vc.define("h", mkStore(x.get(st, k), base, x.vc.fresh("sorted", arraySort(isz, es))))
 		x.enc.assumption("slices.Sort permutes the slice in place (contents after the call arbitrary in the model)")
 		return nil
+	case "encoding/json.Marshal":
+		rets := pureUF("pure; marshalling a finite float64 never fails")
+		v := argT(0)
+		ok := mkAnd(T(SBool, "((_ is AF64) "+v.S+")"), mkNot(app(SBool, "fp.isNaN", app(SF64, "af64", v))), mkNot(app(SBool, "fp.isInfinite", app(SF64, "af64", v))))
+		x.vc.assume(mkImplies(ok, mkEq(rets[1].(Term), intLit(0))))
+		x.externalErr(rets[1].(Term))
+		if sl, isT := rets[0].(Term); isT && sl.Sort == SSlice {
+			x.assumeWF(st, sl, sig.Results().At(0).Type())
+		}
+		return rets
 	case "reflect.ValueOf":
 		return []SV{x.ufS("reflect_valueof", x.enc.sortOf(sig.Results().At(0).Type()), argT(0))}
 	case "(reflect.Value).Pointer":
@@ -517,6 +527,17 @@ func (x *X) external(fr *Frame, st *State, fn *ssa.Function, args []SV, cc *ssa.
 			}
 		}
 		return rets
+	}
+	// An unmodelled external function that is handed the address of a package
+	// variable may write it: that is shared state outliving the call, which
+	// the frame conditions (C05, C09, C19) forbid.
+	for i, a := range args {
+		if p, ok := a.(*PtrV); ok && p.kind == pkGlobal {
+			x.externGlobal++
+			x.obligation(st, "frame", fmt.Sprintf("extern-global#%d:%s", x.externGlobal, shortKey(p.key)), tFalse, token.NoPos,
+				fmt.Sprintf("address of package variable %s is passed (argument %d) to unmodelled external function %s, which may modify it", p.key, i, name),
+				[]string{"C05", "C09", "C19"})
+		}
 	}
 	x.enc.unsupported("external call " + name + " (results arbitrary, effects on module state ignored)")
 	return x.havocResults(sig, st)
@@ -685,6 +706,9 @@ func (x *X) builderCall(fr *Frame, st *State, fn *ssa.Function, name string, arg
 		}
 		nv := x.vc.define("builder", x.ufS("builder_"+m, bs, cur, a))
 		x.store(st, p, nv)
+		if len(args) > 1 {
+			x.outEvent(st, x.makeInterface(args[1], fn.Params[1].Type()))
+		}
 		rets := x.havocResults(fn.Signature, st)
 		for i := 0; i < fn.Signature.Results().Len(); i++ {
 			if isErrorType(fn.Signature.Results().At(i).Type()) {
